@@ -88,21 +88,55 @@ def subclassExtends (b : Nat) (bc : Cls) : Except String (Option Nat) :=
   else if bc.orig.isSome then .error "AssertionError"
   else .ok (some b)
 
+/-- `get_flat_type_info` with the types: parents first, a re-declared name keeps its place and takes the new type -/
+def flatFieldsF : Nat → Heap → Nat → List (String × Nat)
+  | 0, _, _ => []
+  | fuel + 1, h, c =>
+    match h.cls[c]? with
+    | none => []
+    | some cl =>
+      let base := match cl.ext with
+        | some e => flatFieldsF fuel h e
+        | none => []
+      cl.fields.foldl (fun acc p => odictSet acc p.1 p.2) base
+
+/-- `mixin.update(b.get_flat_type_info(b))` over the `__mixin__` bases, in base order -/
+def mixinFields (h : Heap) (mixins : List Nat) : List (String × Nat) :=
+  mixins.foldl (fun acc m =>
+    (flatFieldsF (h.cls.length + 1) h m).foldl (fun a p => odictSet a p.1 p.2) acc) []
+
+/-- `for k, v in reversed(mixin.items()): _type_info.insert(0, (k, v))` -/
+def prependMixins (F : Facts15) (mf : List (String × Nat)) (d : List (String × Nat)) : List (String × Nat) :=
+  (match F.mixinOrder with | .declared => mf.reverse | .reversed => mf).foldl
+    (fun (acc : List (String × Nat)) (p : String × Nat) => odictInsert acc 0 p.1 p.2) d
+
 /-- own `_variants` entry of the `Attributes` of a freshly declared class: generated by `_gen_attrs`
     (`attrs = none`) or written by the user as `class Attributes(Base.Attributes): ...` -/
 def declaredVariants (F : Facts15) (attrs : Option Kw) : Option (Option (List Nat)) :=
   if (match attrs with | some _ => F.varRuleX | none => F.varRule) == .ownPerClass then some none else none
 
 def subclassOp (F : Facts15) (base : Option Nat) (name : String) (ns : Option String)
-    (fields : List (String × Nat)) (perm : List Nat) (attrs : Option Kw) : M Nat := do
+    (fields : List (String × Nat)) (perm : List Nat) (attrs : Option Kw) (mixins : List Nat) (asMixin : Bool) :
+    M Nat := do
   let bc ← getCls (base.getD F.complexRoot)
   let ext ← liftExcept (subclassExtends (base.getD F.complexRoot) bc)
-  allocBoth { own := (attrs.getD []).reverse, parent := some bc.attrs,
+  let h ← getHeap
+  -- `_gen_attrs`: the Attributes of the first base in the bases tuple (mixins are listed first)
+  let first := match mixins.head? with
+    | some m => (match h.cls[m]? with | some mc => mc | none => bc)
+    | none => bc
+  guardNone (if mixins.all (fun m => match h.cls[m]? with | some mc => mc.mixin && mc.kind == .complex | none => false)
+             then none else some "Exception")
+  -- (an explicit body is `class Attributes(Base.Attributes)`, a generated one derives from the first base's)
+  allocBoth { own := (attrs.getD []).reverse, parent := some (match attrs with | some _ => bc.attrs | none => first.attrs),
               variants := declaredVariants F attrs,
               dca := none, dcaa := none }
-    (fun a => { kind := .complex, attrs := a, fields := declaredFields F perm fields, orig := none, ext := ext,
-                tn := some name, ns := match ns with | some n => some n | none => bc.ns,
-                modNs := "c15hist", pybase := some (base.getD F.complexRoot), target := none, lo := none, hi := none })
+    (fun a => { kind := .complex, attrs := a,
+                fields := prependMixins F (mixinFields h mixins) (declaredFields F perm fields),
+                orig := none, ext := ext,
+                tn := some name, ns := match ns with | some n => some n | none => first.ns,
+                modNs := "c15hist", pybase := some (base.getD F.complexRoot), target := none, mixin := asMixin,
+                lo := none, hi := none })
 
 /-! ## `append_field` / `insert_field` (complex.py:1285-1344) -/
 
@@ -173,11 +207,11 @@ def xmlattrOp (F : Facts15) (src : Nat) : M Nat := do
 /-! ## operations and histories -/
 
 inductive Op where
-  | customize (src : Nat) (kw : Kw) (ca : Option (List (String × Kw))) (caa : Option Kw)
+  | customize (src : Nat) (kw : Kw) (ca : Option (List (String × Kw))) (caa : Option Kw) (prot : Option Nat)
   | array (src : Nat) (member : Option String) (kw : Kw) (flat iter : Bool)
   | mandatory (src : Nat)
   | subclass (base : Option Nat) (name : String) (ns : Option String) (fields : List (String × Nat)) (perm : List Nat)
-      (attrs : Option Kw)
+      (attrs : Option Kw) (mixins : List Nat) (asMixin : Bool)
   | append (c : Nat) (name : String) (t : Nat)
   | insert (c : Nat) (idx : Nat) (name : String) (t : Nat)
   | xmlattr (src : Nat)
@@ -185,13 +219,15 @@ inductive Op where
 
 /-- the program of an operation; `some id` = the class it returns -/
 def opProg (F : Facts15) (fuel : Nat) : Op → M (Option Nat)
-  | .customize src kw ca caa => do
+  | .customize src kw ca caa prot => do
     let sc ← getCls src
-    if sc.kind.isComplex then some <$> custComplex F fuel src kw ca caa
-    else some <$> customizeAny F fuel src kw
+    let kwE ← protMerge F prot kw
+    if sc.kind.isComplex then some <$> custComplex F fuel src kwE ca caa
+    else some <$> customizeAny F fuel src kwE
   | .array src member kw flat iter => some <$> arrayOp F fuel src member kw flat iter
   | .mandatory src => some <$> mandatory F fuel src
-  | .subclass base name ns fields perm attrs => some <$> subclassOp F base name ns fields perm attrs
+  | .subclass base name ns fields perm attrs mixins asMixin =>
+    some <$> subclassOp F base name ns fields perm attrs mixins asMixin
   | .append c name t => do
     let cl ← getCls c
     guardNone (if cl.kind.isComplex then none else some "AttributeError")
@@ -233,7 +269,8 @@ def initHeap (F : Facts15) : Heap :=
         -- (Array and Iterable declare their own `class Attributes(...)`)
         variants := if F.varRuleX == .ownPerClass then some none
                     else if i == F.iterRoot then none else some none,
-        dca := none, dcaa := none, colArgs := none, colRef := none }) F.bases }
+        dca := none, dcaa := none, colArgs := none, colRef := none }) F.bases,
+    prots := F.prots }
 
 /-! ## observation -/
 
